@@ -137,6 +137,9 @@ def run(ctx, chk):
            ok, detail, sc.module.path)
     # Flat space: n = len(actions), index -> actions[idx]
     check_flat(ctx, chk)
+    from .rowprov import check_positions
+    check_positions(ctx, chk, "C11.blocks", {"nasim.envs.action", "nasim.envs.environment"},
+                    {"actions"}, "the flat action list")
     check_maps(ctx, chk)
     check_decode(ctx, chk)
     check_decode_lookup(ctx, chk)
